@@ -318,11 +318,12 @@ def run_direct(ctx, drv):
 # ==========================================================================================
 class Call(object):
     """one call of a probe function: the text printed between two '#' markers"""
-    __slots__ = ("cls", "kind", "descr", "expr", "expect", "model_cmd", "model_map", "note")
+    __slots__ = ("cls", "kind", "descr", "expr", "expect", "model_cmd", "model_map", "also_ok")
 
-    def __init__(self, cls, kind, descr, expr, expect, model_cmd=None, model_map=None):
+    def __init__(self, cls, kind, descr, expr, expect, model_cmd=None, model_map=None, also_ok=()):
         self.cls, self.kind, self.descr, self.expr = cls, kind, descr, expr
         self.expect = expect            # list of output lines demanded by the property
+        self.also_ok = list(also_ok)    # other outcomes the property allows as well
         self.model_cmd = model_cmd      # H-line for the model runner (None: not modelled)
         self.model_map = model_map      # model answer -> list of lines | ("foreign",) | None
 
@@ -397,7 +398,8 @@ def gen_programs(ctx):
     p = Program("arr_nil", "func probe(i : int) -> int\n{\n    var aa = {[ 2 ]} : [_] : int;\n    aa[0][i]\n}\n" + CATCH)
     for i in (0, 1, -1):
         p.add(Call("array_deref", "nil-array", "nil[%d]" % i, "print(probe(%s))" % nev_int(i),
-                   [E_OOB] if i < 0 else [E_NIL], "HA nil | %d" % i, elem_map()))
+                   [E_OOB] if i < 0 else [E_NIL], "HA nil | %d" % i, elem_map(),
+                   also_ok=[[E_NIL]] if i < 0 else ()))      # nil and a negative index: either fault is in order
     progs.append(p)
 
     # ---- ranges -----------------------------------------------------------------------------
@@ -862,7 +864,7 @@ def run_probes(ctx, nevrun):
                 if not orderly:
                     ctx.violation("%s:%s" % (c.cls, c.kind),
                                   "%s: %s instead of an orderly outcome" % (c.descr, obs_txt), replay)
-            elif obs_lines != c.expect:
+            elif obs_lines != c.expect and obs_lines not in c.also_ok:
                 ctx.violation("%s:%s" % (c.cls, c.kind),
                               "%s gives %s, the property demands %s" % (c.descr, obs_txt, show_obs(c.expect)), replay)
             # -- the model --------------------------------------------------------------------------
@@ -914,12 +916,33 @@ def run_probes(ctx, nevrun):
         ctx.sample({"probe": c.descr, "call": c.expr, "expected": show_obs(c.expect), "model": mans.get(c.model_cmd)})
 
 
+def build_index_engine():
+    """what bin/build-ocaml does, for the `index` engine only (fallback, see run())"""
+    d = os.path.join(common.BUILD, "ocaml", "index")
+    ex = os.path.join(common.COQ, "Extract", "ExtractIndex.v")
+    drv = os.path.join(common.VERIF, "harness", "ocaml", "index")
+    cmd = ("set -e; mkdir -p %(d)s; cd %(d)s; rm -f *.ml *.mli *.cm* *.o .stamp; "
+           "coqc -Q %(coq)s NV %(ex)s -o %(d)s/ExtractIndex.vo >/dev/null; rm -f ExtractIndex.vo ExtractIndex.glob .*.aux; "
+           "cp %(drv)s/*.ml .; files=\"$(ocamlfind ocamldep -sort *.mli *.ml)\"; "
+           "ocamlfind ocamlopt -O3 -w -a -package unix,str -linkpkg $files -o run 2>build.log || "
+           "ocamlfind ocamlopt -w -a -package unix,str -linkpkg $files -o run 2>build.log || { cat build.log >&2; exit 1; }"
+           % {"d": d, "coq": common.COQ, "ex": ex, "drv": drv})
+    with common.Lock("ocaml"):
+        rc, so, se = common.sh(["bash", "-c", cmd], timeout=600)
+    return rc == 0, so + se
+
+
 def run(ctx):
     t0 = time.time()
     ctx.proofs()
     t1 = time.time()
     lib = common.repobuild("asan")
     ok, log = common.ocaml_build()
+    if not ok and not re.search(r"indexrun|indexmodel|ExtractIndex|Index/|ExcTab", log):
+        # bin/build-ocaml stops at the first engine that fails; another engine's driver being
+        # broken must not decide C12: build this engine alone, the same way
+        ctx.notes["ocaml_build_other_engine_failed"] = log[-300:]
+        ok, log = build_index_engine()
     if not ok or not os.path.exists(RUN):
         ctx.correspondence_broken("extraction-build", log[-3000:])
         return
